@@ -65,7 +65,8 @@ type Known struct {
 	Rule     string `json:"rule"`
 	Sig      string `json:"sig"` // regular expression, anchored
 	What     string `json:"what"`
-	Replay   string `json:"replay"` // committed replay file that demonstrates it
+	Replay   string `json:"replay,omitempty"` // committed replay file that demonstrates it, or
+	Demo     string `json:"demo,omitempty"`   // name of a fixed demonstration in the scenario
 	Commit   string `json:"commit,omitempty"`
 }
 
@@ -149,6 +150,7 @@ func Worker(c workerCfg) int {
 	seen := map[string]int{} // violation class -> index in res.Viol
 	start := time.Now()
 	known := loadKnown(c.Prop)
+	shrunk := 0
 	for ui := c.Start + c.Wid; ui < c.Start+c.Units; ui += c.NW {
 		if c.Secs > 0 && time.Since(start) > time.Duration(c.Secs)*time.Second {
 			break
@@ -181,7 +183,8 @@ func Worker(c workerCfg) int {
 					}
 				}
 				if !isKnown {
-					path, tr := confirmAndShrink(sc, c, ui, useed, forced, t.Rec, v)
+					shrunk++
+					path, tr := confirmAndShrink(sc, c, ui, useed, forced, t.Rec, v, shrunk <= 3)
 					if tr != "" {
 						res.Trouble = append(res.Trouble, tr)
 					}
@@ -204,6 +207,15 @@ func Worker(c workerCfg) int {
 	return 0
 }
 
+func runDemo(fn func() *sim.Violation) (v *sim.Violation, trouble string) {
+	defer func() {
+		if r := recover(); r != nil {
+			trouble = fmt.Sprintf("panic: %v", r)
+		}
+	}()
+	return fn(), ""
+}
+
 func hasClass(o *sim.Outcome, class string) *sim.Violation {
 	for i := range o.Viol {
 		if o.Viol[i].Class() == class {
@@ -213,7 +225,7 @@ func hasClass(o *sim.Outcome, class string) *sim.Violation {
 	return nil
 }
 
-func confirmAndShrink(sc scen.Scenario, c workerCfg, ui int, useed uint64, forced map[string]int, rec []sim.Entry, v sim.Violation) (string, string) {
+func confirmAndShrink(sc scen.Scenario, c workerCfg, ui int, useed uint64, forced map[string]int, rec []sim.Entry, v sim.Violation, shrink bool) (string, string) {
 	class := v.Class()
 	scratch := sim.NewStats()
 	// confirm: replaying the recorded tape must give the same class and log hash
@@ -224,6 +236,9 @@ func confirmAndShrink(sc scen.Scenario, c workerCfg, ui int, useed uint64, force
 	budget := 400
 	if c.Tier == "thorough" {
 		budget = 1500
+	}
+	if !shrink {
+		budget = 0 // many classes at once: only the first few per worker are minimised
 	}
 	deadline := time.Now().Add(60 * time.Second)
 	minTape, tries := sim.Shrink(rec, func(cand []sim.Entry) ([]sim.Entry, bool) {
@@ -368,8 +383,31 @@ func Check(prop, tier string, nworkers int) int {
 		if k.Status != "known" {
 			continue
 		}
+		if k.Demo != "" {
+			dm, ok := sc.(scen.Demonstrator)
+			var fn func() *sim.Violation
+			if ok {
+				fn = dm.Demos()[k.Demo]
+			}
+			if fn == nil {
+				trouble = append(trouble, "known finding "+k.Name+": scenario has no demonstration "+k.Demo)
+				continue
+			}
+			v, tr := runDemo(fn)
+			switch {
+			case tr != "":
+				trouble = append(trouble, "demonstration "+k.Demo+": "+tr)
+			case v != nil && k.matches(*v):
+				knownLines = append(knownLines, fmt.Sprintf("KNOWN-FINDING: property=%s %s", prop, k.What))
+			case v != nil:
+				trouble = append(trouble, fmt.Sprintf("demonstration %s shows %s, which entry %s does not match", k.Demo, v.Class(), k.Name))
+			default:
+				fmt.Printf("note: listed finding %q no longer reproduces on this tree (not reported)\n", k.Name)
+			}
+			continue
+		}
 		if k.Replay == "" {
-			trouble = append(trouble, "known finding "+k.Name+" has no replay file")
+			trouble = append(trouble, "known finding "+k.Name+" has neither demo nor replay file")
 			continue
 		}
 		cmd := exec.Command(exe, "--replay", filepath.Join(vd, k.Replay))
